@@ -147,12 +147,17 @@ func CheckIntrospection(c *Ctx, file []byte) (string, string) {
 	maxPages := 0
 	for _, rg := range pf.RowGroups {
 		for _, ch := range rg.Columns {
-			pages, err := pqfile.WalkChunk(file, ch.DataPageOffset, ch.TotalComp-(ch.DataPageOffset-chunkStart(&ch)))
+			ch := ch
+			pages, err := pqfile.WalkChunk(file, ChunkStart(&ch), ch.TotalComp)
 			if err != nil {
 				return "", "" // invalid file
 			}
 			var hs []refHdr
 			for _, p := range pages {
+				// data pages (v1 and v2) from data_page_offset on; a dictionary page precedes it
+				if int64(p.Offset) < ch.DataPageOffset || (p.Type != pqfile.PData && p.Type != pqfile.PDataV2) {
+					continue
+				}
 				h := refHdr{canon: thriftc.Canon(restrict(p.Raw, reflect.TypeOf(parquet.PageHeaders).Out(0).Elem())), nv: p.NumValues}
 				hs = append(hs, h)
 				all = append(all, h)
@@ -211,8 +216,6 @@ func CheckIntrospection(c *Ctx, file []byte) (string, string) {
 	return "", ""
 }
 
-func chunkStart(ch *pqfile.Chunk) int64 { return ch.DataPageOffset }
-
 func firstDiff(a, b string) string {
 	i := 0
 	for i < len(a) && i < len(b) && a[i] == b[i] {
@@ -258,4 +261,29 @@ func runC16(c *Ctx) {
 		})
 	}
 	runC16Foreign(c)
+	// valid files that use features the READER does not implement: inspecting such files
+	// is what the introspection calls (parquetgen -metadata / -pageheaders) are for
+	for _, sh := range c.SelShapes() {
+		if sh.Name != "p1" && sh.Name != "p2" && !c.Thorough {
+			continue
+		}
+		forEachCarrier(c, sh, "c16x/", func(f string) bool { return f != "index_page" }, func(cc *carrier) {
+			c.Out.Count("cases", 1)
+			c.Out.Count("files_foreign_unsupported_feature", 1)
+			c.Out.Count("xfeature_"+cc.Feature, 1)
+			c.Out.Distinct(cc.ID, true)
+			kind, detail := func() (k, d string) {
+				defer func() {
+					if r := recover(); r != nil {
+						k, d = "panic", fmt.Sprintf("introspection panicked: %v\n%s", r, clip(stack()))
+					}
+				}()
+				return CheckIntrospection(c, cc.File)
+			}()
+			if kind != "" {
+				c.Out.Violate(Violation{Prop: "C16", Key: "origin=foreign;feature=" + cc.Feature + ";kind=" + kind, Case: cc.ID, Shape: sh.Name,
+					Detail: fmt.Sprintf("valid file whose column %s uses %s (row group %d, page %d): %s", cc.Col, cc.Feature, cc.RG, cc.PI, detail)})
+			}
+		})
+	}
 }
